@@ -635,7 +635,16 @@ def macroize(text, rng, n):
     pre, post = [], []
     for d in defs:
         (pre if rng.random() < 0.7 else post).append(d)
-    return "\n".join(pre) + ("\n" if pre else "") + text + ("\n" + "\n".join(post) + "\n" if post else "")
+    out = "\n".join(pre) + ("\n" if pre else "") + text + ("\n" + "\n".join(post) + "\n" if post else "")
+    # comments are inert, multi-line ones too: an outdated definition of a macro in use, a commented-out call and a
+    # commented-out project header inside block comments that span several lines
+    used = [m.group(1) for d in defs for m in [re.match(r"macro (\S+) \[", d)] if m]
+    if used and rng.random() < 0.6:
+        nm = rng.choice(used)
+        out += "\n/* outdated:\nmacro " + nm + " [effort 99h]\n   ${" + nm + "}\n*/\n"
+    if rng.random() < 0.3:
+        out = "/*\n project old \"Old\" 2001-01-01 +1d {\n }\n*/\n" + out
+    return out
 
 
 def _nocomment(s):
